@@ -72,6 +72,9 @@ type Case struct {
 	// nonempty (directory with content), absent, file, symlink (to DestLink, resolved from dest's parent).
 	Dest     string `json:"dest,omitempty"`
 	DestLink string `json:"destlink,omitempty"`
+	// Unpriv: the child unpacks as an unprivileged user (uid/gid 4242) that owns the destination
+	// tree and the u* sentinels outside; everything else outside belongs to root.
+	Unpriv bool `json:"unpriv,omitempty"`
 }
 
 func (c Case) rootOp() Op {
@@ -437,6 +440,13 @@ func buildTree(root, nonce string) {
 		mk(filepath.Join(l, "outside/sub"))
 		wr(filepath.Join(l, "outside/f"), "outside file "+l)
 		wr(filepath.Join(l, "outside/sub/g"), "outside sub file "+l)
+		// sentinels the unprivileged child may write to (an escape has to be observable for it too)
+		wr(filepath.Join(l, "uvictim"), "sentinel of the unprivileged user "+l)
+		mk(filepath.Join(l, "uoutside"))
+		wr(filepath.Join(l, "uoutside/f"), "file in a directory of the unprivileged user "+l)
+		for _, n := range []string{"uvictim", "uoutside", "uoutside/f"} {
+			must(os.Lchown(filepath.Join(root, l, n), unprivUID, unprivGID))
+		}
 		// device and fifo sentinels with distinctive mode and owner (never opened by anything here)
 		for _, d := range devSentinels {
 			p := filepath.Join(root, l, d.name)
@@ -482,6 +492,64 @@ func freezeTimes(root string) {
 	}
 }
 
+// ---------------------------------------------------------------------------- sentinel trees
+
+// A tree is one chroot directory with all its sentinels. Building and removing some 130
+// objects per case is most of the parent's file-system work, so a tree that a case left
+// untouched (empty snapshot difference) is reset and used again.
+type tree struct{ scratch, root, nonce string }
+
+var (
+	treeMu    sync.Mutex
+	freeTrees []*tree
+)
+
+func getTree() *tree {
+	treeMu.Lock()
+	if n := len(freeTrees); n > 0 {
+		t := freeTrees[n-1]
+		freeTrees = freeTrees[:n-1]
+		treeMu.Unlock()
+		return t
+	}
+	treeMu.Unlock()
+	scratch := hx.Scratch("c18")
+	t := &tree{scratch: scratch, root: filepath.Join(scratch, "root"), nonce: hx.Hash8([]byte(scratch))}
+	buildTree(t.root, t.nonce)
+	return t
+}
+
+// release resets the destination path, the job and the store of an untouched tree and keeps
+// it; a touched tree is removed.
+func (t *tree) release(untouched bool) {
+	if untouched {
+		ok := true
+		for _, rel := range []string{destRel, "job", "store"} {
+			p := filepath.Join(t.root, rel)
+			if os.RemoveAll(p) != nil || os.Mkdir(p, 0o755) != nil {
+				ok = false
+			}
+		}
+		os.Remove(filepath.Join(t.scratch, "job.json"))
+		if ok {
+			treeMu.Lock()
+			freeTrees = append(freeTrees, t)
+			treeMu.Unlock()
+			return
+		}
+	}
+	os.RemoveAll(t.scratch)
+}
+
+func dropTrees() {
+	treeMu.Lock()
+	defer treeMu.Unlock()
+	for _, t := range freeTrees {
+		os.RemoveAll(t.scratch)
+	}
+	freeTrees = nil
+}
+
 // ---------------------------------------------------------------------------- run
 
 var (
@@ -518,11 +586,10 @@ func runReal(c Case) (o hx.Outcome) {
 	c = normalize(c)
 	archive := buildArchive(c)
 
-	scratch := hx.Scratch("c18")
-	defer os.RemoveAll(scratch)
-	root := filepath.Join(scratch, "root")
-	nonce := hx.Hash8([]byte(scratch))
-	buildTree(root, nonce)
+	tr := getTree()
+	reusable := false
+	defer func() { tr.release(reusable) }()
+	scratch, root, nonce := tr.scratch, tr.root, tr.nonce
 	// state of the destination path (nothing below resolves a path through dest once it may be a link)
 	destPath := filepath.Join(root, destRel)
 	switch c.Dest {
@@ -542,6 +609,24 @@ func runReal(c Case) (o hx.Outcome) {
 	if c.PreLink != "" {
 		must(os.Symlink(c.PreLink, filepath.Join(destPath, "l")))
 	}
+	if c.Unpriv {
+		// the destination path and what is in it belong to the unpacking user (lchown: never through a link)
+		var own func(p string)
+		own = func(p string) {
+			var st syscall.Stat_t
+			if syscall.Lstat(p, &st) != nil {
+				return
+			}
+			must(os.Lchown(p, unprivUID, unprivGID))
+			if st.Mode&syscall.S_IFMT == syscall.S_IFDIR {
+				ents, _ := os.ReadDir(p)
+				for _, e := range ents {
+					own(p + "/" + e.Name())
+				}
+			}
+		}
+		own(destPath)
+	}
 	must(os.WriteFile(filepath.Join(root, "job/a.catar"), archive, 0o644))
 	chunks := 0
 	if c.Path == "index" {
@@ -558,7 +643,7 @@ func runReal(c Case) (o hx.Outcome) {
 		must(os.WriteFile(filepath.Join(root, "job/a.caidx"), buf.Bytes(), 0o644))
 		chunks = len(idx.Chunks)
 	}
-	jb, _ := json.Marshal(job{Root: root, Nonce: nonce, Mode: c.Path, Workers: c.Workers, NoSameOwner: c.NoSameOwner, NoSamePerm: c.NoSamePerm})
+	jb, _ := json.Marshal(job{Root: root, Nonce: nonce, Mode: c.Path, Workers: c.Workers, NoSameOwner: c.NoSameOwner, NoSamePerm: c.NoSamePerm, Unpriv: c.Unpriv})
 	jobPath := filepath.Join(scratch, "job.json")
 	must(os.WriteFile(jobPath, jb, 0o644))
 	freezeTimes(root)
@@ -567,6 +652,10 @@ func runReal(c Case) (o hx.Outcome) {
 	res := runChild(jobPath)
 	after := takeSnap(root)
 	changes := diffSnaps(before, after)
+	// Nothing outside dest differs in any compared respect and the child ended normally: the
+	// sentinel tree can serve the next case (dest, job and store are made anew, all times are
+	// frozen again). Any difference at all, legitimate or not, and the tree is thrown away.
+	reusable = len(changes) == 0 && res.Done
 
 	// ---- which entries did the unpacker get to see
 	var entries []Op // entries[0] is the implicit root
@@ -596,6 +685,7 @@ func runReal(c Case) (o hx.Outcome) {
 	}
 
 	// ---- classes and non-triviality
+	nontrivial := false
 	o.Class("path:" + c.Path)
 	if res.Err == "" {
 		o.Class("result:nil")
@@ -605,7 +695,6 @@ func runReal(c Case) (o hx.Outcome) {
 	if !res.Done {
 		o.Class("unpacker-crashed")
 	}
-	nontrivial := false
 	depth, maxDepth := 0, 0
 	var symNames []string
 	symThenEntry, absTarget, crossed := false, false, false
@@ -613,6 +702,24 @@ func runReal(c Case) (o hx.Outcome) {
 		symNames = append(symNames, "l")
 		o.Class("symlink-in-dest-before-the-run")
 		absTarget = strings.HasPrefix(c.PreLink, "/")
+	}
+	if c.Unpriv {
+		o.Class("unprivileged-unpack")
+		if !c.NoSameOwner {
+			o.Class("unprivileged-unpack:owner-restoration-on")
+		}
+	}
+	for i, cl := range res.Calls {
+		if cl.Kind == "file" && cl.Over != "" {
+			o.Class("symlink-then-file")
+			if strings.Contains(cl.Err, "permission denied") || strings.Contains(cl.Err, "not permitted") {
+				o.Class("symlink-then-file:unlink-refused")
+				if i < len(entries) && strings.HasPrefix(cl.Over, "/") {
+					o.Class("symlink-then-file:unlink-refused:link-to-outside")
+				}
+				nontrivial = true
+			}
+		}
 	}
 	o.Class("root:" + rootOp.K)
 	if rootOp.Name != "" {
@@ -703,6 +810,20 @@ func runReal(c Case) (o hx.Outcome) {
 			}
 			if strings.HasPrefix(op.Target, "/") {
 				absTarget = true
+			}
+		}
+		if !op.NoName && op.K == "dir" && ei < len(res.Calls) && res.Calls[ei].Err == "" {
+			for _, e := range hist[len(hist)-1] {
+				if e.k == "dir" && e.name == raw {
+					sameName["dir-entry-repeated"] = true
+					if op.Perm&0o200 == 0 {
+						sameName["dir-entry-repeated:mode-readonly"] = true
+						if c.Unpriv {
+							sameName["dir-entry-repeated:mode-readonly:unprivileged"] = true
+						}
+					}
+					break
+				}
 			}
 		}
 		if !op.NoName && op.K == "dev" && ei < len(res.Calls) {
@@ -863,6 +984,10 @@ func runReal(c Case) (o hx.Outcome) {
 	o.Desc.(map[string]any)["root"] = rootDesc
 	o.Desc.(map[string]any)["dest"] = destDesc
 	shape = append([]string{"root=" + rootDesc, "dest=" + destDesc}, shape...)
+	if c.Unpriv {
+		shape = append([]string{"unprivileged"}, shape...)
+		o.Desc.(map[string]any)["unprivileged"] = true
+	}
 	o.Key = c.Path + "|" + c.PreLink + "|" + strings.Join(shape, "|")
 	obs := observed{Result: res.Err, Changes: changes, Stderr: res.Stderr, Final: res.Final}
 	if res.Err == "" {
@@ -1185,6 +1310,12 @@ func genCase(t *rapid.T) Case {
 		c.PreLink = rapid.SampledFrom(symTargets).Draw(t, "prelinktarget")
 	}
 
+	// who unpacks: mostly root, sometimes an unprivileged user (then mostly without owner restoration,
+	// else every entry is given the user's own ids so that chown succeeds)
+	if rapid.IntRange(0, 4).Draw(t, "unpriv") == 0 {
+		c.Unpriv = true
+		c.NoSameOwner = rapid.IntRange(0, 4).Draw(t, "unpriv-nso") > 0
+	}
 	// state of the destination path
 	switch rapid.SampledFrom([]string{"", "", "", "", "", "", "nonempty", "absent", "absent", "file", "symlink", "symlink"}).Draw(t, "dest") {
 	case "nonempty":
@@ -1227,7 +1358,7 @@ func genCase(t *rapid.T) Case {
 				}
 			}
 			c.Ops = ops
-			return c
+			return ownIDs(c)
 		}
 	}
 
@@ -1255,7 +1386,44 @@ func genCase(t *rapid.T) Case {
 		}
 	}
 
-	switch rapid.SampledFrom([]string{"random", "random", "sym-child", "sym-child", "sym-dir", "replace", "self", "self", "dotdot-dir", "dotdot-entry", "dotdot-entry", "absolute", "long", "same-name", "same-name", "same-name", "after-root-bye", "link-then-node", "link-then-node"}).Draw(t, "scenario") {
+	switch rapid.SampledFrom([]string{"random", "random", "sym-child", "sym-child", "sym-dir", "replace", "self", "self", "dotdot-dir", "dotdot-entry", "dotdot-entry", "absolute", "long", "same-name", "same-name", "same-name", "after-root-bye", "link-then-node", "link-then-node", "dir-again", "dir-again", "dir-again"}).Draw(t, "scenario") {
+	case "dir-again": // a directory entry repeated under the same name with another mode, then entries inside it
+		d := rapid.SampledFrom([]string{"d", "d", "a", "l"}).Draw(t, "dname")
+		first := plainEntry(t, "dir", d)
+		first.Perm, first.Xattrs = rapid.SampledFrom([]uint32{0o755, 0o755, 0o700, 0o777}).Draw(t, "firstmode"), nil
+		ops = append(ops, first)
+		for i, n := 0, rapid.IntRange(1, 2).Draw(t, "inner"); i < n; i++ {
+			e := plainEntry(t, rapid.SampledFrom([]string{"sym", "sym", "sym", "file", "dir"}).Draw(t, "ik"), []string{"x", "y"}[i])
+			e.Xattrs = nil
+			if e.K == "sym" {
+				e.Target = rapid.SampledFrom(append(append([]string{}, userTargets...), "/sb/l1/xvictim", "../../victim", "/sb/outside", "../../outside/f")).Draw(t, "itarget")
+			}
+			ops = append(ops, e)
+			if e.K == "dir" {
+				ops = append(ops, Op{K: "bye"})
+			}
+		}
+		ops = append(ops, Op{K: "bye"})
+		if rapid.IntRange(0, 4).Draw(t, "between") == 0 {
+			ops = append(ops, plainEntry(t, "file", "other"))
+		}
+		for r, nr := 0, rapid.IntRange(1, 2).Draw(t, "repeats"); r < nr; r++ {
+			again := plainEntry(t, "dir", d)
+			again.Perm, again.Xattrs = rapid.SampledFrom([]uint32{0o555, 0o555, 0o555, 0o500, 0, 0o755, 0o1555}).Draw(t, "againmode"), nil
+			ops = append(ops, again)
+			for i, n := 0, rapid.IntRange(1, 2).Draw(t, "inner2"); i < n; i++ {
+				e := plainEntry(t, rapid.SampledFrom([]string{"file", "file", "file", "sym", "dev", "dir"}).Draw(t, "ik2"), rapid.SampledFrom([]string{"x", "x", "x", "y", "z"}).Draw(t, "in2"))
+				e.Xattrs = nil
+				if e.K == "sym" {
+					e.Target = rapid.SampledFrom(userTargets).Draw(t, "itarget2")
+				}
+				ops = append(ops, e)
+				if e.K == "dir" {
+					ops = append(ops, Op{K: "bye"})
+				}
+			}
+			ops = append(ops, Op{K: "bye"})
+		}
 	case "link-then-node": // a symlink to an outside node or file, then a DEVICE entry of the same name that "is" that node
 		name := "x"
 		tg := rapid.SampledFrom(nodeTargets).Draw(t, "nodetarget")
@@ -1424,8 +1592,27 @@ func genCase(t *rapid.T) Case {
 		}
 	}
 	c.Ops = ops
+	return ownIDs(c)
+}
+
+// ownIDs gives every entry the unprivileged user's ids when that user unpacks with owner
+// restoration on (chown to anything else would just fail with EPERM at the first entry).
+func ownIDs(c Case) Case {
+	if !c.Unpriv || c.NoSameOwner {
+		return c
+	}
+	for i := range c.Ops {
+		c.Ops[i].UID, c.Ops[i].GID = unprivUID, unprivGID
+	}
+	if c.Root == nil {
+		c.Root = &Op{K: "dir", Perm: 0o755, Mtime: rootMtimeNs / 1_000_000_000}
+	}
+	c.Root.UID, c.Root.GID = unprivUID, unprivGID
 	return c
 }
+
+// outside objects that belong to the unprivileged user (as seen from dest/d/<entry> for the relative ones)
+var userTargets = []string{"/sb/l1/uvictim", "../../uvictim", "../../../uvictim", "/uvictim", "/sb/uoutside/f", "../../uoutside/f", "/sb/l1/uoutside", "../../uoutside"}
 
 // ---------------------------------------------------------------------------- spec and tests
 
@@ -1441,7 +1628,7 @@ var spec = &hx.Spec[Case]{
 		"'outside' is everything but the destination path: when the destination is or becomes a symlink, objects reached through it are outside; the first entry of the archive may create or replace the destination path itself (a root symlink alone is no violation), later entries may not",
 		"the child records FilesystemWriter calls through a pass-through wrapper around desync.LocalFS (used for attribution and class counting only, the verdict is the parent's snapshot difference)",
 		"archives are chunked in the parent with desync.ChunkStream (min 64, avg 192, max 768) into an uncompressed LocalStore inside the chroot tree",
-		"runs as root: chown, mknod and chroot succeed",
+		"the parent and most children run as root (chown, mknod succeed); 'unprivileged' children drop to uid/gid 4242 after the chroot, own the destination tree and the u* sentinels outside it, and get EPERM/EACCES like any user",
 	},
 	Required: []string{"path:catar", "path:index",
 		"name:dotdot", "name:dotdot-prefix", "name:inner-dotdot", "name:absolute", "name:slash", "name:empty", "name:dot", "name:dot-slash", "name:long",
@@ -1450,6 +1637,8 @@ var spec = &hx.Spec[Case]{
 		"same-name:dir-then-file-then-symlink", "same-name:dir-then-file-then-symlink:target-exists-outside", "same-name:file-then-symlink-then-file",
 		"same-name:symlink-then-device:numbers-match-target", "same-name:symlink-then-device:numbers-match-target:chr", "same-name:symlink-then-device:numbers-match-target:reg",
 		"same-name:symlink-then-device:numbers-match-target:fifo", "same-name:symlink-then-device:numbers-match-target:blk", "same-name:prelink-then-device:numbers-match-target",
+		"unprivileged-unpack", "unprivileged-unpack:owner-restoration-on", "dir-entry-repeated:mode-readonly", "dir-entry-repeated:mode-readonly:unprivileged",
+		"symlink-then-file", "symlink-then-file:unlink-refused", "symlink-then-file:unlink-refused:link-to-outside",
 		"same-name:dir-then-symlink(refused)", "same-name:prefix-names:dir-then-file-then-symlink", "same-name:length>=4", "outside:metadata-compared",
 		"root:dir", "root:sym", "root:file", "root:dev", "root:non-dir:followed-by-named-entry", "root:non-dir:followed-by-nameless-entry", "root:sym:accepted:followed-by-named-entry",
 		"after-root-goodbye:named-entry", "after-extra-goodbye:named-entry",
@@ -1469,9 +1658,9 @@ func TestMain(m *testing.M) {
 	hx.Main(m)
 }
 
-func TestRegress(t *testing.T) { hx.Regress(t, spec) }
-func TestKnown(t *testing.T)   { hx.Known(t, spec) }
-func TestReplay(t *testing.T)  { hx.Replay(t, spec) }
+func TestRegress(t *testing.T) { t.Cleanup(dropTrees); hx.Regress(t, spec) }
+func TestKnown(t *testing.T)   { t.Cleanup(dropTrees); hx.Known(t, spec) }
+func TestReplay(t *testing.T)  { t.Cleanup(dropTrees); hx.Replay(t, spec) }
 
 // runPool computes the outcomes with up to four children at a time, then feeds the cases to hx
 // one after the other (hx sees a sequential run).
@@ -1479,7 +1668,11 @@ func runPool(t *testing.T, cases []Case) bool {
 	outs := make([]hx.Outcome, len(cases))
 	var wg sync.WaitGroup
 	next := make(chan int)
-	for w := 0; w < 4; w++ {
+	workers := 4
+	if hx.Shards() > 1 { // the other shards run children at the same time
+		workers = 2
+	}
+	for w := 0; w < workers; w++ {
 		wg.Add(1)
 		go func() {
 			defer wg.Done()
@@ -1526,9 +1719,7 @@ var enumSelves = []Op{{NoName: true}, {Name: ""}, {Name: "."}, {Name: "/"}, {Nam
 // symlink target followed by every kind of entry beneath/over the link; the
 // replace-current-directory sequences.
 func TestEnum(t *testing.T) {
-	if hx.Shard() != 0 {
-		t.Skip()
-	}
+	t.Cleanup(dropTrees)
 	var cases []Case
 	attr := func(o Op) Op {
 		o.Perm, o.UID, o.GID, o.Mtime = 0o750, 1234, 4321, 1_234_567_890
@@ -1734,6 +1925,9 @@ func TestEnum(t *testing.T) {
 		{{K: "bye"}, {K: "file", Name: "pwned"}, {K: "dev", Name: "xvictim"}},
 		{},
 	}
+	if !hx.Thorough() {
+		follows = [][]Op{follows[0], follows[1], follows[3]}
+	}
 	for _, r := range roots {
 		for _, d := range dests {
 			for _, f := range follows {
@@ -1771,9 +1965,66 @@ func TestEnum(t *testing.T) {
 			}
 		}
 	}
+	// a directory entry repeated with a read-only mode, then a file over the symlink that sits in
+	// it: unpacked by the unprivileged user the unlink is refused (the seed C18-10 scenario),
+	// the file must not be written through the link
+	for _, tg := range hx.Pick([]string{"/sb/l1/uvictim", "../../uvictim", "/sb/uoutside/f", "/sb/l1/xvictim", "../../uoutside"}, append(append([]string{}, userTargets...), "/sb/l1/xvictim", "../../victim")) {
+		for _, mode := range []uint32{0o555, 0o500, 0, 0o755} {
+			d1, d2 := attr(Op{K: "dir", Name: "d"}), attr(Op{K: "dir", Name: "d"})
+			d1.Perm, d2.Perm = 0o755, mode
+			link := attr(Op{K: "sym", Name: "x", Target: tg})
+			file := attr(Op{K: "file", Name: "x"})
+			bye := Op{K: "bye"}
+			seqs := [][]Op{{d1, link, bye, d2, file, bye}}
+			if mode == 0o555 {
+				fifo := attr(Op{K: "dev", Name: "x", DevType: "fifo"})
+				seqs = append(seqs,
+					[]Op{d1, link, bye, d2, link, bye},
+					[]Op{d1, link, bye, d2, fifo, bye},
+					[]Op{d1, attr(Op{K: "file", Name: "x"}), link, bye, d2, file, file, bye},
+					[]Op{d1, link, bye, attr(Op{K: "file", Name: "other"}), d2, attr(Op{K: "dir", Name: "x"}), bye, bye})
+			}
+			for _, sq := range seqs {
+				for _, p := range pathFor() {
+					cases = append(cases, Case{Path: p, Workers: 1, Ops: sq, Unpriv: true, NoSameOwner: true})
+				}
+			}
+			for _, p := range pathFor() {
+				cases = append(cases, ownIDs(Case{Path: p, Workers: 1, Ops: append([]Op(nil), seqs[0]...), Unpriv: true}), Case{Path: p, Workers: 1, Ops: seqs[0]})
+			}
+		}
+	}
+	// the unprivileged user and the classic orders
+	for _, f := range [][]Op{
+		{{K: "sym", Name: "l", Target: "../uoutside"}, {K: "dir", Name: "l"}, {K: "file", Name: "x"}},
+		{{K: "sym", Name: "l", Target: "/sb/l1/uvictim"}, {K: "file", Name: "l"}},
+		{{K: "dir", Name: "d"}, {K: "bye"}, {K: "file", Name: "d"}, {K: "sym", Name: "d", Target: "../uoutside"}},
+		{{K: "sym", Name: "x", Target: "../fifo"}, {K: "dev", Name: "x", DevType: "fifo"}},
+		{{K: "file", Name: "../uvictim"}},
+	} {
+		var ops []Op
+		for _, o := range f {
+			ops = append(ops, attr(o))
+		}
+		for _, p := range pathFor() {
+			cases = append(cases, Case{Path: p, Workers: 1, Ops: ops, Unpriv: true, NoSameOwner: true}, Case{Path: p, Workers: 1, Ops: ops, Unpriv: true, NoSameOwner: true, Dest: "nonempty", PreLink: "../uoutside"})
+		}
+	}
+	// every shard builds the same list and runs its share
+	all := len(cases)
+	var mine []Case
+	for i, c := range cases {
+		if i%hx.Shards() == hx.Shard() {
+			mine = append(mine, c)
+		}
+	}
+	cases = mine
 	hx.AddNote("enumerated_cases", len(cases))
+	if hx.Shard() == 0 {
+		hx.Note("enumeration_size", all)
+	}
 	if runPool(t, cases) {
-		hx.Exhaustive("listed hostile names x {dir,file,symlink,device} x nesting depths; listed symlink targets (made by the archive or present before) x entries beneath/over the link; replace-current-directory sequences for every listed self name (nameless, empty, '.', '/', '//', '/.', './', './/'); entries with user.*/trusted.* xattrs incl. symlinks to existing outside objects; listed same-name and prefix-name sequences (dir, file, symlink in turn) x listed outside targets; root entry kinds (dir, named dir, file, fifo, device with file mode, symlink to listed targets) x destination states (empty, with content, absent, file, symlink outside/inside) x listed follow-ups; entries behind the root goodbye; symlink (archive-made or pre-existing) to listed outside nodes/files then a DEVICE entry with matching and with differing type/numbers")
+		hx.Exhaustive("listed hostile names x {dir,file,symlink,device} x nesting depths; listed symlink targets (made by the archive or present before) x entries beneath/over the link; replace-current-directory sequences for every listed self name (nameless, empty, '.', '/', '//', '/.', './', './/'); entries with user.*/trusted.* xattrs incl. symlinks to existing outside objects; listed same-name and prefix-name sequences (dir, file, symlink in turn) x listed outside targets; root entry kinds (dir, named dir, file, fifo, device with file mode, symlink to listed targets) x destination states (empty, with content, absent, file, symlink outside/inside) x listed follow-ups; entries behind the root goodbye; unprivileged unpack of directory-repeated-with-read-only-mode sequences; symlink (archive-made or pre-existing) to listed outside nodes/files then a DEVICE entry with matching and with differing type/numbers")
 	}
 }
 
@@ -1784,6 +2035,7 @@ func TestSelf(t *testing.T) {
 	if hx.Shard() != 0 {
 		t.Skip()
 	}
+	t.Cleanup(dropTrees)
 	fail := func(format string, a ...any) {
 		fmt.Println("SELFTEST-FAILURE: " + fmt.Sprintf(format, a...))
 		t.Fatalf(format, a...)
@@ -1880,4 +2132,4 @@ func TestSelf(t *testing.T) {
 	}
 }
 
-func TestProp(t *testing.T) { hx.Prop(t, spec) }
+func TestProp(t *testing.T) { t.Cleanup(dropTrees); hx.Prop(t, spec) }
